@@ -475,6 +475,15 @@ def placeholder_case(draw, styles=None):
 
 # --------------------------------------------------------------------------- templates with fixable literals (C10, C30)
 
+def seeded_rng(draw):
+    """random.Random seeded with a Hypothesis-drawn integer.  Deterministic under VERIF_SEED like st.randoms(), but the
+    procedural generators get uniformly distributed choices (st.randoms(use_true_random=False) draws every float
+    from a boundary-biased strategy: about 70 % of the templates it produced were duplicates of earlier examples)."""
+    import random as _random
+
+    return _random.Random(draw(st.integers(0, 2 ** 62)))
+
+
 FIX_RULE_SETS = ["all", "all", "all", "core", "layout", "capitalisation", "aliasing", "ambiguous", "convention",
                  "references", "structure", "jinja", "layout,jinja", "LT01", "LT02", "LT12,LT13"]
 
@@ -643,7 +652,7 @@ _FIX_PIECES = ["SELECT  ", "select ", " from ", " FROM  ", "\n", "   ", "a", ",b
 @st.composite
 def template_fix_case(draw, templaters=("jinja", "jinja", "jinja", "python", "placeholder"), rule_sets=None):
     """Templated files whose literal parts have fixable violations, plus a rule selection (`rules`)."""
-    rng = draw(st.randoms(use_true_random=False))
+    rng = seeded_rng(draw)
     templater = draw(st.sampled_from(list(templaters)))
     rules = draw(st.sampled_from(list(rule_sets or FIX_RULE_SETS)))
     if templater == "jinja":
@@ -996,7 +1005,7 @@ def gsqlx_case(draw, dialect="sqlite", populations=3, max_len=None, **features):
     """Executable query (extended construct set) + `populations` table populations for t1(a,b,c), t2(a,d), t3(k,v).
     max_len: regenerate (up to 6 times, then keep the shortest) until the text is at most that long (fix cost grows
     steeply with length)."""
-    rng = draw(st.randoms(use_true_random=False))
+    rng = seeded_rng(draw)
     best = None
     for _ in range(6):
         g = SqlGenX(rng, **features)
